@@ -19,7 +19,7 @@ class Obl:
     twin: bool = True  # run the reachability twin
     cost: float = 1.0  # scheduling hint (expected seconds)
     kind: str = "crosshair"  # "crosshair" | "smt" (fn() -> dict result, run directly)
-    finding_guard: Optional[Callable] = None  # unused placeholder (known findings are matched in runner)
+    concrete: Optional[Callable] = None  # smt kind: concrete(**args) -> truthy iff the property holds on the REAL code
 
 
 def simple_pre(expr: str, names):
